@@ -196,6 +196,26 @@ def random_history(rng, nops, universe=("x", "y", "z", "m", "g")):
     return ops
 
 
+def chain_history(rng, universe=("x", "y", "z", "m", "g")):
+    """the set of named files grows one file per reload and then shrinks one file per reload (reloads that only add, reloads that only
+    drop; every file carried over several times before it goes), read after every reload through the reloading handle and a dup"""
+    names = list(universe)
+    rng.shuffle(names)
+    cur = names[:rng.randint(1, 2)]
+    ops = [("init", [99], list(cur)), ("dup", [2, 1, 99], [])]
+    def read(h):
+        return [("open", [h, 1], []), ("close", [1], [])]
+    ops += read(1)
+    for nm in names[len(cur):]:
+        cur.append(nm)
+        ops += [("rewrite", [], list(cur)), ("reload_now", [1], [])] + read(1) + (read(2) if rng.random() < 0.5 else [])
+    while len(cur) > 1:
+        cur.pop(rng.randrange(len(cur)))
+        h = rng.choice([1, 1, 2])
+        ops += [("rewrite", [], list(cur)), ("reload_now", [h], [])] + read(h) + read(3 - h)
+    return ops
+
+
 def partition_histories(ctx, b):
     """mtbl_fileset_partition (deprecated, still public): after any sequence of setfile rewrites and reloads, the two mergers
     hold exactly the files of the current view split by the callback - all files of the shared set, whatever the handle's
@@ -266,6 +286,7 @@ def run(ctx):
     partition_histories(ctx, b)
     hs = tlc_behaviours(ctx, 150 if ctx.quick() else 3500)
     hs += [random_history(rng, rng.choice([10, 25, 60])) for _ in range(100 if ctx.quick() else 2500)]
+    hs += [chain_history(rng) for _ in range(25 if ctx.quick() else 300)]
     nmany = 40 if ctx.quick() else 500
     many0 = len(hs)
     hs += [random_history(rng, rng.choice([10, 25]), universe=list(FILES_MANY) + ["m", "g"]) for _ in range(nmany)]
